@@ -493,6 +493,16 @@ def unpivot_clauses(ctx):
             comps = [(n, v) for k, n, v in [e for e in pv.events if e[0] == 'assign'] if isinstance(v, ast.ListComp)
                      and len(v.generators) == 1 and len(v.generators[0].ifs) == 1 and isinstance(v.generators[0].target, ast.Name)
                      and pseudo(v.elt) == v.generators[0].target.id]
+            # (a list handed on to another name - the result of an inlined helper - is the same list: its last name counts)
+            last_name = {}
+            for n, v in comps:
+                last_name[ast.dump(v)] = n
+            dedup, seen_v = [], set()
+            for n, v in comps:
+                if ast.dump(v) not in seen_v:
+                    seen_v.add(ast.dump(v))
+                    dedup.append((last_name[ast.dump(v)], v))
+            comps = dedup
             src = set(u(v.generators[0].iter) for n, v in comps)
             ok = len(comps) == 2 and len(src) == 1 and sum(1 for n, v in comps if n in src) == 1 and comps[1][0] in src
             if ok:
